@@ -42,7 +42,11 @@ for p in sorted(root.glob("*.py")):
     m = p.stem
     def sig(q, fn):
         ps = [a.arg for a in fn.args.posonlyargs + fn.args.args + fn.args.kwonlyargs]
-        loc = sorted({x.id for x in ast.walk(fn) if isinstance(x, ast.Name) and isinstance(x.ctx, ast.Store)} - set(ps))
+        seen, loc = set(ps), []
+        for x in sorted([x for x in ast.walk(fn) if isinstance(x, ast.Name) and isinstance(x.ctx, ast.Store)], key=lambda x: (x.lineno, x.col_offset)):
+            if x.id not in seen:          # locals in the order of their first binding
+                seen.add(x.id)
+                loc.append(x.id)
         sigs.append(f"sig:{q}=" + ",".join(ps) + "|" + ",".join(loc))
     for st in tree.body:
         if isinstance(st, ast.FunctionDef):
